@@ -144,7 +144,7 @@ fn benign_space(ctx: &Ctx, sizes: &[usize]) {
         }
     }
     ctx.lattice(
-        &format!("benign families (6 kinds) of orders {:?} x 3 rhs x 3 guesses x 3 tolerances x budgets {{0,1,n,10n}} x 5 solvers", sizes),
+        &format!("benign families (6 kinds) of orders {:?} x 4 rhs x 3 guesses x 3 tolerances x budgets {{0,1,n,10n}} x 5 solvers", sizes),
         cases.len() as u64,
         |i| format!("{:?}", cases[i as usize]),
         |i, acc| {
@@ -154,7 +154,9 @@ fn benign_space(ctx: &Ctx, sizes: &[usize]) {
             let j = Judge { d: &d, a: &a, anorm: norm_inf_mat(&d) };
             let xs = xstar(n);
             let b1 = matvec(&d, &xs);
-            let rhs = vec![b1.clone(), vec![0.0; n], b1.iter().map(|v| v * 1e6).collect::<Vec<f64>>()];
+            // e_0 excites every eigen-direction: the slowest convergence (long runs) among the right-hand sides
+            let e0: Vec<f64> = (0..n).map(|k| if k == 0 { 1.0 } else { 0.0 }).collect();
+            let rhs = vec![b1.clone(), vec![0.0; n], b1.iter().map(|v| v * 1e6).collect::<Vec<f64>>(), e0];
             let gs = vec![vec![0.0; n], xs.clone(), (0..n).map(|k| if k % 2 == 0 { 0.5 } else { -2.0 }).collect::<Vec<f64>>()];
             if n >= 13 {
                 acc.hit("order >= 13");
@@ -252,7 +254,7 @@ fn main() {
         );
     }
     if ctx.quick() {
-        benign_space(&ctx, &[1, 2, 3, 5, 8, 13, 21]);
+        benign_space(&ctx, &[1, 2, 3, 5, 8, 13, 21, 34, 60]);
     } else {
         benign_space(&ctx, &[1, 2, 3, 4, 5, 6, 7, 8, 13, 21, 34, 47, 60]);
     }
